@@ -66,6 +66,7 @@ def run(ctx):
         return
     writers(ctx, fb)
     record(ctx, fb, gi, gn)
+    cursor_reset(ctx, fb, gi)
     cache(ctx, fb, gi)
     positions(ctx, fb, gi)
 
@@ -143,6 +144,47 @@ def record(ctx, fb, gi, gn):
     fl = [c for c in gn.calls() if re.search(r'LogitsFilter::filter$', c.callee or '')]
     okf = bool(fl) and all('prev_tokens' in pfields(gn, c.args[2]) for c in fl)
     ctx.inst(R, 'filter-sees-history', okf, 'LogitsFilter::filter is given self.prev_tokens', fl[0].loc() if fl else gn.loc())
+
+
+def cursor_reset(ctx, fb, gi):
+    """the recording `prev_tokens.extend(self.input_ids[self.<cursor>..])` skips a prefix measured by a cursor field (how many
+    pending tokens are already recorded).  That prefix only means something for the current contents of input_ids: every
+    method that empties or replaces input_ids (Vec::clear / truncate / drain, or an assignment to the field) must also store
+    to the cursor on every path afterwards - otherwise the next run skips (never records) that many freshly appended
+    tokens, or slices out of range"""
+    R = 'C32.record'
+    cur = set()
+    for c in gi.calls():
+        if re.search(r'Extend<.*>>::extend$|::extend_from_slice$', c.callee or '') and 'prev_tokens' in pfields(gi, c.args[0]):
+            cur |= (pfields(gi, c.args[1]) - {'input_ids'})
+    if not cur:
+        ctx.note('C32.record: the recording does not skip a prefix by a cursor field; cursor-reset clause not applicable')
+        return
+    n = 0
+    for f in fb.fns(crate=CRATE):
+        if not f.has_mir() or '{closure' in f.path or not (f.path.startswith(G) or f.path == NEXT):
+            continue
+        shr = [(c.bb, 'Vec::' + (c.callee or '').split('::')[-1]) for c in f.calls() if re.search(r'Vec::<T(, A)?>::(clear|truncate|drain|remove|pop|split_off)$', c.callee or '') and 'input_ids' in pfields(f, c.args[0])]
+        stores = []
+        for i, b in enumerate(f.bbs):
+            if b.get('c') or i not in f.live():
+                continue
+            for st in b['s']:
+                if st[0] == '=':
+                    flds = [str(e[2]) for e in st[1][1:] if isinstance(e, list) and e[0] == 'f']
+                    if flds == ['input_ids']:
+                        shr.append((i, 'assignment'))
+                    if flds and flds[-1] in cur and len(flds) == 1:
+                        stores.append(i)
+        for (bb, how) in shr:
+            n += 1
+            rets = f.return_blocks()
+            # every path from the shrink to a return passes a store to the cursor (a store in the same block after it counts)
+            ok = bb in stores or f.all_paths_pass(bb, set(rets), set(stores)) if stores else False
+            name = f.path.split('::')[-1]
+            ctx.inst(R, 'cursor-reset-with-shrink:%s' % name, bool(ok), '%s empties/replaces input_ids (%s) and stores to the recording cursor %s on every path after it' % (name, how, sorted(cur)) if ok else
+                     '%s empties/replaces input_ids (%s) without updating the recording cursor %s: the next run records input_ids[stale..], skipping tokens that are submitted to the model (or panics when fewer tokens are pending)' % (name, how, sorted(cur)), f.loc())
+    ctx.floor(R, 'places that empty or replace input_ids', n, 3)
 
 
 def _loops_over(f, field, after_bb=None, before_bb=None):
